@@ -207,7 +207,11 @@ def removeInsignificantWhitespace (f : Forest) (node : Nat) : Forest :=
   | none => f
   | some t =>
     let toRemove := (descendantsNormal t).filter f.isInsignificantWhitespace
-    toRemove.foldl (fun acc n => (acc.remove n).1) f
+    -- `xot.text_consolidation = false` around the loop (the field is set directly, so this is
+    -- not a `set_text_consolidation` call and `everOff` does not change)
+    let f0 := { f with consolidation := false }
+    let f1 := toRemove.foldl (fun acc n => (acc.remove n).1) f0
+    { f1 with consolidation := f.consolidation }
 
 end Forest
 end XotModel
